@@ -1,10 +1,10 @@
 SPECIFICATION Spec
 CONSTANTS
   Versions = {3, 4}
-  StreamSets <- SS_perm
+  StreamSets <- SS_difat
   NSect = 6
   Geo <- G4
-  HD = 2
+  HD = 1
   XFat = {0}
   XMiniFat = {0}
   FreeMinis = {0}
